@@ -77,7 +77,7 @@ def source(r):
 
 
 def plan(tier, seed):
-    n = 1600 if tier == "quick" else 32000
+    n = 1200 if tier == "quick" else 16000
     return [{"seed": seed, "chunk": i, "n": 40} for i in range(n // 40)]
 
 
